@@ -195,3 +195,31 @@ Proof.
   assert (Hn : t_held tj = HNone) by (unfold is_w, is_r in *; destruct (t_held tj); try discriminate; reflexivity).
   split; intros [rj Ej]; rewrite Ej, Hn in Oj; cbn in Oj; discriminate.
 Qed.
+
+(** ** the foreign-operation checker means what it says: at every foreign operation of an accepted
+    path the mutex is not held *)
+Lemma foreign_ok_spec : forall p h, foreign_ok h p = true ->
+  forall pre post, p = pre ++ FForeign :: post -> fheld h pre = false.
+Proof.
+  induction p as [|e p IH]; intros h Hok pre post Heq.
+  - destruct pre; discriminate.
+  - destruct pre as [|e' pre].
+    + simpl in Heq. inversion Heq; subst. simpl in Hok.
+      apply andb_prop in Hok. destruct Hok as [Hh _]. simpl. destruct h; [discriminate|reflexivity].
+    + simpl in Heq. inversion Heq; subst.
+      destruct e'; simpl in Hok |- *.
+      * eapply IH; eauto.
+      * eapply IH; eauto.
+      * eapply IH; eauto.
+      * apply andb_prop in Hok. destruct Hok as [_ Hok]. eapply IH; eauto.
+Qed.
+
+Lemma all_foreign_ok_spec ms : all_foreign_ok ms = true ->
+  forall name paths p pre post, In (name, paths) ms -> In p paths -> p = pre ++ FForeign :: post ->
+  fheld false pre = false.
+Proof.
+  unfold all_foreign_ok. intros H name paths p pre post Hin Hp Heq.
+  rewrite forallb_forall in H. specialize (H _ Hin). simpl in H.
+  rewrite forallb_forall in H. specialize (H _ Hp).
+  eapply foreign_ok_spec; eauto.
+Qed.
